@@ -37,6 +37,7 @@ Reorder(cell, o) == [j \in DOMAIN cell |-> cell[o[j]]]
 SafeNumberings(nv) ==
   IF nv <= 4 \/ (nv <= 6 /\ Tier = "thorough")
   THEN {[v \in 1..nv |-> pi[v]] : pi \in Permutations(1..nv)}
+  ELSE IF Tier = "quick" /\ nv > 9 THEN {ReversePerm(nv)}
   ELSE {[v \in 1..nv |-> v], ReversePerm(nv), RotateBy(nv, 2)}
 
 Base ==
@@ -52,7 +53,13 @@ Base ==
 
 \* every way of handing the cells of a base mesh to the constructor: numbering pi, local order per cell
 QuadShiftPatterns == [1..4 -> {[j \in 1..4 |-> ((j - 1 + s) % 4) + 1] : s \in 0..3}]
-Patterns(name, m) == IF name = "quad4" THEN QuadShiftPatterns ELSE [DOMAIN m.t -> LocalOrders(m.kind)]
+Patterns(name, m) ==
+  IF name = "quad4" THEN QuadShiftPatterns
+  ELSE IF Tier = "quick" /\ m.kind = "hex"
+       THEN {pat \in [DOMAIN m.t -> LocalOrders(m.kind)] : pat[1] = HexRot[1] \/ pat[2] = HexRot[7]}
+  ELSE IF Tier = "quick" /\ m.kind = "tet"
+       THEN {pat \in [DOMAIN m.t -> LocalOrders(m.kind)] : pat[1][1] = 1 \/ pat[2][4] = 4}
+  ELSE [DOMAIN m.t -> LocalOrders(m.kind)]
 
 Variant(m, pi, pat) ==
   LET r == Renumber(m, pi) IN
